@@ -42,8 +42,10 @@ var (
 	FileType         = reflect.TypeOf(ast.File{})
 	ForStmtType      = reflect.TypeOf(ast.ForStmt{})
 	FuncDeclType     = reflect.TypeOf(ast.FuncDecl{})
+	FuncTypeType     = reflect.TypeOf(ast.FuncType{})
 	GenDeclType      = reflect.TypeOf(ast.GenDecl{})
 	IdentType        = reflect.TypeOf(ast.Ident{})
+	IndexListType    = reflect.TypeOf(ast.IndexListExpr{})
 	ObjectType       = reflect.TypeOf(ast.Object{})
 	RangeStmtType    = reflect.TypeOf(ast.RangeStmt{})
 	ScopeType        = reflect.TypeOf(ast.Scope{})
@@ -56,8 +58,10 @@ var (
 	FilePtrType         = reflect.PtrTo(FileType)
 	ForStmtPtrType      = reflect.PtrTo(ForStmtType)
 	FuncDeclPtrType     = reflect.PtrTo(FuncDeclType)
+	FuncTypePtrType     = reflect.PtrTo(FuncTypeType)
 	GenDeclPtrType      = reflect.PtrTo(GenDeclType)
 	IdentPtrType        = reflect.PtrTo(IdentType)
+	IndexListPtrType    = reflect.PtrTo(IndexListType)
 	ObjectPtrType       = reflect.PtrTo(ObjectType)
 	RangeStmtPtrType    = reflect.PtrTo(RangeStmtType)
 	ScopePtrType        = reflect.PtrTo(ScopeType)
